@@ -13,6 +13,8 @@ namespace smt
     namespace verif
     {
         SMT_EXPORT record_hook on_record = nullptr;
+        SMT_EXPORT row_alloc_hook on_row_alloc = nullptr;
+        SMT_EXPORT row_free_hook on_row_free = nullptr;
     }
 #endif
 
